@@ -601,6 +601,41 @@ func c11Run(c c11Case) (v vVerdict) {
 				var r bool
 				return sc.SetExperimentStateLabel(&StateLabelConfig{Label: st.Text, WaitForError: true}, &r)
 			})
+		case "labelnowait":
+			// The state-label request in its default mode: it returns at once and the label is applied a moment later (an error
+			// would end the server by design, so it is only sent where it must succeed: a running source that is writing).
+			// The same client's next request - ReadComment, which looks at the writing state itself - follows immediately.
+			// Used by the race workloads (C17); nothing is judged here except that both calls return.
+			if !e.running || st.Text == "" || !sc.isSourceActive || !sc.ActiveSource.ComputeWritingState().Active {
+				continue
+			}
+			label := fmt.Sprintf("%s-%d", st.Text, i)
+			if _, bad = e.call("SetExperimentStateLabel", func() error {
+				var r bool
+				return sc.SetExperimentStateLabel(&StateLabelConfig{Label: label, WaitForError: false}, &r)
+			}); bad != nil {
+				return *bad
+			}
+			zero := 0
+			if _, bad = e.call("ReadComment", func() error { var r string; return sc.ReadComment(&zero, &r) }); bad != nil {
+				return *bad
+			}
+			// the label has been applied when its announcement has passed the status channel: only then the next request
+			deadline := time.Now().Add(5 * time.Second)
+			for applied := false; !applied && time.Now().Before(deadline); {
+				vClientMu.Lock()
+				for k := len(vClientLog) - 1; k >= 0 && k >= len(vClientLog)-200; k-- {
+					if vClientLog[k].tag == "STATELABEL" && vClientLog[k].state == label {
+						applied = true
+					}
+				}
+				vClientMu.Unlock()
+				if !applied {
+					time.Sleep(100 * time.Microsecond)
+				}
+			}
+			e.classes["label-fire-and-forget"] = true
+			continue
 		case "comment":
 			txt := st.Text
 			if txt == "" {
